@@ -21,6 +21,10 @@ fn main() {
 	}
 	let seed: u64 = std::env::var("VERIF_SEED").ok().and_then(|s| s.parse::<i64>().ok()).map(|v| v as u64).unwrap_or(0);
 	match args[1].as_str() {
+		"maxtape" if args.len() >= 3 => {
+			let def = vh::props::find(&args[2]).unwrap_or_else(|| usage());
+			println!("{}", def.max_tape);
+		}
 		"list" => {
 			for p in vh::props::registry() {
 				println!("{}", p.id);
